@@ -2,15 +2,68 @@
 
 How the rules of this module look at the code.  The parsers of the structured settings (transform / recover programs,
 execute lists, the sleep-mask section table, the process-inject transform, the BeaconGate option string) are not matched
-against a particular *spelling* (an if/elif chain, a list named ENABLE_STEPS, a `while True` loop ...).  They are
-*evaluated* by a small symbolic evaluator (`_Ev`, below) on abstract inputs: for every opcode of the wire format the
-opcode read is given its concrete bytes, everything else the stream hands out is symbolic, and the rules compare what
-every path of one loop iteration does - which reads of which lengths, which value is appended to the result, whether the
-loop goes on - with what the format prescribes.  An if-chain, a lookup table keyed by opcode, a data-driven loop over
-(label, set) pairs, guard clauses with `continue`, De-Morganed conditions, `for d in iter(partial(p.read, 4), b"")`
-instead of `while True`, helper functions, conditional expressions and temporaries all evaluate to the same thing.
-Where the evaluator meets something it does not model, the obligation is *undecided* (the construct could not be
-located), never violated.
+against a particular *spelling* (an if/elif chain, a list named ENABLE_STEPS, a `while True` loop ...).  Their paths are
+walked by a path-wise value-flow analysis (`_Ev`, below) that builds a symbolic *term* for every value: parameters are
+opaque symbols, every read of the stream is a symbolic read of the requested length, an integer decoded from a read is
+the term dec(read, byteorder, signed), a test that cannot be decided forks the path.  No input data exists in a run: a
+run is specialised by *named assumptions* (`_Assume`) over the code's own finite vocabulary - "the opcode decoded from
+the first read is TransformStep.X" (one run per enum member of the C definitions), "the BUILD selector is k" (k a key of
+the reference table), "the stream is exhausted", "start / end of the entry is zero / non-zero" - which are propagated
+as constants where the code decodes or compares that value.  A loop over the stream is analysed for ONE iteration with
+what it carries around unknown (`_Ev._enter_loop`): of the result list only the items appended during the iteration are
+looked at, a list the loop modifies has unknown length / content wherever a path inspects it, a scalar re-bound in the
+loop is a free unknown, a set / dict modified in the loop stops the analysis (undecided); a read-ahead local stands for
+the read at the end of the previous iteration and the back edge checks that it is re-bound to a read of the same length.
+A term a path has forked on keeps its truth value on that path (path condition; no solving).  The rules then compare, structurally, the terms every path produced - which reads of which lengths, which value is
+appended to the result, how the path ends - with the terms the format prescribes.  An if-chain, a lookup table keyed by
+opcode, a data-driven loop over (label, set) pairs, guard clauses with `continue`, De-Morganed conditions,
+`for d in iter(partial(p.read, 4), b"")` instead of `while True`, helper functions, conditional expressions and
+temporaries all yield the same terms.  Where the analysis meets something it does not model, or a test on an assumed
+value that its lemmas do not decide, the obligation is *undecided* (the construct could not be located), never violated.
+
+Technique (numbers = the ALLOWED devices of RULES_GUIDE.md "What counts as static here"; nothing of a-e is used: no
+/repo code is imported or run, no sample bytes / programs / lengths are fed to anything, no numeric enumeration)
+  R1  1, 6: the enums / struct of CS_DEF (parsed C definitions) compared completely with the reference tables.
+  R2  3 (path-wise value flow of parse_transform_binary: per-path terms for reads, decodes and appended values, one loop
+      iteration, structural comparison with the prescribed terms), 5 (one run per TransformStep member of CS_DEF; BUILD
+      selector per key of _BUILD_SELECTORS), 2 (branches pruned by three-valued evaluation under the run's named
+      assumption), 6 (constant folding of the code's literals and local tables); SETTING_TO_PRETTYFUNC entries: 3 (the
+      entry applied to a symbolic argument, package calls kept as terms), 1 (argument binding).  Lemmas D1, D2, B1, B2, E0,
+      Z0, N0.
+  R3  3 (the dec(read, byteorder, signed, whole?) terms and list effects collected on the paths of the R2/R4/R7 runs, the
+      source term of the stream), 2 (how every path of the iteration ends), 4 (sign facts about decoded integers decided
+      on a path are reused later on it; forks over zero / non-zero of an argument value).  Lemmas Z0, N0.
+  R4  as R2, for parse_recover_binary: 3, 5 (per TransformStep member), 2, 6.
+  R5  6 (the code's set constants folded), 3 (membership condition of every element kept as a term; the option set is a
+      symbolic subset of a constant universe), 5 (case analysis over the outcomes of the group tests - boolean flags), set
+      algebra on constants.  Lemma S0.
+  R6  1 (attribute reads on values typed as cstruct instances; syntax trees of the installed dissect.cstruct sources).
+  R7  1, 6 (table keys); 3 (entries applied to a symbolic argument); execute list: 3, 5 (one run per InjectExecutor
+      member of CS_DEF), 2, lemmas D1, D2, B1, B2, I0; process-inject transform: 3 with forks over the symbolic tests
+      (a `for` over a constant tuple of the code is followed once per element of that constant); NUL cut: 3 (the returned
+      term compared structurally with the finitely many forms of lemma P0); codec: 6 (constant) against the alias
+      table of lemma C0.
+  R8  3 (the SETTING_* constants the returned term / the decisions on the way depend on), 1 (syntax queries), 6.
+  R9  3, 4/5 (the four sign cases zero / non-zero of the two integers of an entry, as abstract values keyed by their
+      offset; lengths domain for the offsets of the reads), structural comparison of the reported text's term.  Lemma N0.
+
+Lemmas (each used by a transfer rule below; anything else about an assumed or symbolic value stays undecided)
+  D1  a 1-byte string decodes to the same integer in both byte orders (nothing to reorder).
+  D2  signed and unsigned decoding of w bytes agree when the unsigned value is < 2**(8w-1) (sign bit clear).
+  B1  byte strings of different lengths are different (a read is complete: its length is the requested length).
+  B2  fixed-width big-endian unsigned encoding is injective: a whole w-byte read with big-endian value V equals a w-byte
+      constant c iff int(c, big-endian) == V.
+  E0  the only byte string of length 0 is b"" - the value of a read on an exhausted stream.
+  I0  for a 1-byte string b, b[0] and ord(b) are its unsigned value.
+  Z0  read(0) returns b"" and leaves the cursor where it is: a read whose length is known to be zero on the path is
+      dropped before reads are compared.
+  N0  an unsigned decode and a length are >= 0: `x >= k`, `x < k` (k <= 0) are constant, `x > 0` is `x != 0`.
+  S0  A >= B for a symbolic subset A of a constant universe and a constant B: false if B has an element outside the
+      universe (or already removed), true if every element of B is in A unconditionally, else a boolean unknown.
+  P0  for bytes x and separator s: x.partition(s)[0], x.split(s, 1)[0] and x.split(s)[0] are each "x up to the first
+      occurrence of s (all of x if there is none)"; the r-variants / strip cut elsewhere.
+  C0  latin-1 (aliases iso-8859-1, l1, cp819, ...) is the codec that maps every byte 0..255 to exactly one character, so
+      decoding never drops or merges bytes; ascii / utf-8 with "ignore" and the Windows code pages do not.
 """
 
 from __future__ import annotations
@@ -38,19 +91,42 @@ def run(ctx):
     rep = ctx.rep
     rep.explanation = (
         "Static analysis of beacon.py: opcode/enum tables parsed from CS_DEF compared completely with reference tables. The "
-        "structured-setting parsers are evaluated symbolically (one loop iteration per opcode of the wire format, the opcode "
-        "read concrete, every other read symbolic and complete, undecidable tests forked): for every TransformStep opcode the "
-        "client-program parser must read and emit exactly what its arity class prescribes (no argument / 32-bit big-endian "
-        "length prefix / BUILD selector 0->build target, 1->'output'), the recover parser the prescribed literal with True or "
-        "the decoded length, the execute-list parser the prescribed argument reads per InjectExecutor, the section-table "
-        "parser one entry per non-zero (start, end) in stream order, and after every well-formed step the loop must go on; "
-        "every integer decoded in the program parsers is a 4-byte big-endian unsigned decode of a whole 4-byte read; "
-        "BeaconGate group tests evaluated over all outcomes; pretty-function table entries evaluated as 'which decoder is "
-        "applied to the data'; attributes used on cstruct instances checked against the installed dissect.cstruct sources; "
-        "derived properties read the setting their name says."
+        "paths of the structured-setting parsers are walked by a path-wise value-flow analysis that builds symbolic terms: "
+        "every read of the stream is a symbolic, complete read of the requested length, every decoded integer a term "
+        "dec(read, byteorder, signed), undecidable tests fork the path, a loop over the stream is analysed for one iteration "
+        "with what it carries around unknown. No input data is used: a run is specialised by a named assumption over the "
+        "code's own vocabulary (the opcode decoded from the iteration's first read is enum member X of CS_DEF - one run per "
+        "member; the BUILD selector is a key of the reference table; the stream is exhausted; start/end of a section entry "
+        "is zero/non-zero), propagated as a constant where the code decodes or compares that value. The per-path terms are "
+        "compared structurally with what the format prescribes: for every TransformStep opcode the client-program parser must "
+        "read and emit exactly what its arity class prescribes (no argument / 32-bit big-endian length prefix / BUILD "
+        "selector 0->build target, 1->'output'), the recover parser the prescribed literal with True or the decoded length, "
+        "the execute-list parser the prescribed argument reads per InjectExecutor, the section-table parser one entry per "
+        "non-zero (start, end) in stream order, and after every well-formed step the loop must go on; every integer decoded "
+        "in the program parsers is a 4-byte big-endian unsigned decode of a whole 4-byte read; BeaconGate group tests "
+        "analysed over all outcomes of the (symbolic) subset tests; pretty-function table entries applied to a symbolic "
+        "argument ('which decoder is applied to the data'); attributes used on cstruct instances checked against the "
+        "installed dissect.cstruct sources; derived properties read the setting their name says."
     )
-    rep.not_decided = ["decoded byte arguments for all programs", "parse_gargle endianness (no independent reference)", "killdate formatting, IPv4 rendering"]
-    rep.trusted_base = ["CPython ast", "C-definition parser", "reference opcode tables in csverif/tables.py", "installed dissect.cstruct sources under /venv"]
+    rep.not_decided = ["decoded byte arguments for all programs", "parse_gargle endianness (no independent reference)", "killdate formatting, IPv4 rendering",
+                       "any test on an assumed or symbolic value that the lemmas of the module docstring do not decide (the obligation is then undecided)",
+                       "lists that a loop both modifies and inspects; scalars re-bound in a loop (unknown; obligations depending on them are undecided)"]
+    rep.trusted_base = ["CPython ast", "C-definition parser", "reference opcode tables in csverif/tables.py and _BUILD_SELECTORS (rules/c03.py)",
+                        "installed dissect.cstruct sources under /venv",
+                        "the value-flow model of the Python operations used by the parsers (io.BytesIO.read/tell, int.from_bytes, struct.unpack formats, "
+                        "list/set/dict operations, str.format / %-format templates) in rules/c03.py::_Ev",
+                        "assumption: reads of a well-formed encoding are complete (a read of n bytes returns n bytes)",
+                        "lemma D1: a 1-byte string decodes to the same integer in both byte orders",
+                        "lemma D2: signed and unsigned decoding of w bytes agree when the unsigned value is < 2**(8w-1)",
+                        "lemma B1: byte strings of different lengths differ",
+                        "lemma B2: fixed-width big-endian unsigned encoding is injective (a whole w-byte read of value V equals a w-byte constant iff the constant's value is V)",
+                        "lemma E0: the only byte string of length 0 is b'' (value of a read on an exhausted stream)",
+                        "lemma I0: for a 1-byte string b, b[0] and ord(b) are its unsigned value",
+                        "lemma Z0: read(0) returns b'' and does not move the cursor",
+                        "lemma N0: an unsigned decode and a length are >= 0",
+                        "lemma S0: superset test of a symbolic subset of a constant universe against a constant set",
+                        "lemma P0: x.partition(s)[0], x.split(s, 1)[0], x.split(s)[0] are 'x up to the first s'",
+                        "lemma C0: latin-1 (and its aliases) maps every byte to exactly one character"]
     rep.exhaustive = True
     r1(ctx)
     r2(ctx)
@@ -81,16 +157,23 @@ def r1(ctx):
 
 
 # ======================================================================================================================
-# A small symbolic evaluator (private to this module; candidate for csverif/).
+# Path-wise value flow (private to this module; candidate for csverif/).
 #
-# It *executes* a function of the analysed package on abstract inputs: parameters are opaque symbols, a stream made
-# from a parameter hands out symbolic reads (or the concrete bytes an oracle prescribes), integers decoded from a read
-# are terms `dec(read, byteorder, signed)`, lists/sets/dicts are heap objects, tests that cannot be decided fork the
-# path.  A `while` loop (and a `for .. in iter(callable, sentinel)` loop) is executed for ONE representative iteration:
-# a path that reaches the back edge ends with the signal ('next', loop).  The rules then compare what every path did
-# (which reads, which values appended to the result, how the path ended) with what the wire format prescribes.  That
-# makes them independent of how the dispatch is spelled (if-chain, lookup table, data-driven loop, guard clauses,
-# early continue, helper functions, conditional expressions ...).
+# `_Ev` walks the paths of a function of the analysed package and builds a symbolic TERM for every value (policy device 3):
+# parameters are opaque symbols, every read of a stream made from a parameter is a symbolic, complete read `_Rd` of the
+# requested length, an integer decoded from a read is the term dec(read, byteorder, signed), lists/sets/dicts are heap
+# objects, constant expressions and the code's own constant tables are folded (device 6), a test that three-valued
+# evaluation cannot decide forks the path (device 2).  There is no input data: a run may carry named assumptions about
+# abstract values (`_Assume`: the decoded opcode is enum member X, the stream is exhausted, an integer is zero / non-zero -
+# devices 2, 4, 5) which are propagated as constants at the decode / comparison they speak about.  A `while` loop (and
+# a `for .. in iter(callable, sentinel)` loop) is analysed for ONE iteration whose loop-carried state is unknown
+# (`_enter_loop`): a path that reaches the back edge ends with the signal ('next', loop).  A `for` over a constant
+# collection of the code (a tuple of names, the items of a literal dict) is followed once per element of that constant
+# (its size is a constant of the analysed code, not an input size).  The
+# rules then compare what every path produced (which reads, which terms appended to the result, how the path ended) with
+# what the wire format prescribes.  That makes them independent of how the dispatch is spelled (if-chain, lookup table,
+# data-driven loop, guard clauses, early continue, helper functions, conditional expressions ...).  MAX_FORKS / MAX_STEPS
+# bound the size of the analysis (number of paths / visited nodes), not an input.
 # ======================================================================================================================
 class _Stop(Exception):
     """The evaluator met something it does not model on the path it follows: the run is undecided."""
@@ -226,7 +309,11 @@ class _St:
         self.site = None
         self.snap = None
         self.in_loop = None
+        self.carried = frozenset()  # heap objects that exist when the representative iteration begins
+        self.queried, self.mutated = set(), set()  # lineages of carried lists inspected / modified on the path
+        self.kept = {}  # read-ahead locals kept at loop entry: name -> requested length of the read they hold
         self.facts = {}  # decoded integer (term) -> is it zero, as decided earlier on this path
+        self.decided = {}  # symbolic term -> the truth value this path gave it when it forked on it
 
     def fork(self):
         s = _St()
@@ -248,7 +335,11 @@ class _St:
         s.site = self.site
         s.snap = dict(self.snap) if self.snap is not None else None
         s.in_loop = self.in_loop
+        s.carried = self.carried
+        s.kept = dict(self.kept)
+        s.queried, s.mutated = set(self.queried), set(self.mutated)
         s.facts = dict(self.facts)
+        s.decided = dict(self.decided)
         return s
 
     def alloc(self, node, obj, tag=""):
@@ -273,6 +364,8 @@ def _deps(v) -> frozenset:
             out |= _deps(a)
         if v.op in ("superset", "rest"):
             return out | frozenset({("set", v.args[0])})
+        if v.op == "list":
+            return frozenset({("list", v.args[0])})  # content of a list the loop modifies: a free unknown
         # a term over nothing symbolic has a definite value that the evaluator failed to compute
         return out or _LOST
     if isinstance(v, _En):
@@ -285,6 +378,24 @@ def _deps(v) -> frozenset:
             out |= _deps(a)
         return out
     return frozenset()
+
+
+def _stable(v, depth=0) -> bool:
+    """Is v a term whose truth cannot change along a path?  (no heap object - those are mutable -, no value the
+    analysis lost track of - two of those may look alike and be different)"""
+    if isinstance(v, (_Ref, _Fn)) or depth > 20:
+        return False
+    if isinstance(v, _Unk):
+        return not (v.deps & {"lost", "unbound"}) and bool(v.deps)
+    if isinstance(v, _T):
+        if v.op in ("superset", "rest", "tell", "call", "new", "invoke", "list") or v.op.startswith("meth:"):
+            return False
+        return all(_stable(a, depth + 1) for a in v.args)
+    if isinstance(v, _En):
+        return _stable(v.name, depth + 1) and _stable(v.value, depth + 1)
+    if isinstance(v, (tuple, frozenset)):
+        return all(_stable(a, depth + 1) for a in v)
+    return True
 
 
 def _concrete(v) -> bool:
@@ -313,14 +424,27 @@ def _not3(v):
     return None if v is None else (not v)
 
 
-class _Oracle:
-    """What a run assumes about the input: `contents[i]` = the concrete bytes the i-th read returns (otherwise the
-    read is symbolic and complete), `zero[k]` = whether the integer decoded from the bytes at stream offset k is zero."""
+class _Assume:
+    """The named assumptions of one run (policy devices 2 and 5).  Every read of the stream stays a symbolic value; an
+    assumption is a fact about an *abstract* value of the path, never input data:
 
-    def __init__(self, contents=None, zero=None):
-        self.contents = dict(contents or {})
+    `value[i] = V`  "the unsigned big-endian integer over the whole of the i-th read of the path is V".  V ranges over
+                    the analysed code's own vocabulary: one run per member of an enum of the C definitions (the opcode the
+                    dispatcher dispatches on), or per key of the reference table `_BUILD_SELECTORS`.  The fact is used
+                    where a path decodes that read (constant propagation into the decode, see `_Ev.decode`) or compares
+                    it with a bytes literal of the code (`_Ev.rd_eq_bytes`); a decode the fact does not speak about
+                    (other byte order, partial read ...) stays a symbolic term.
+    `eof`           the reads (by index) that hit the end of the input - the 'stream exhausted' case of the two-valued
+                    vocabulary {exhausted, complete} of a read.  Its value is the constant b"" (lemma E0: the only byte
+                    string of length 0).
+    `zero[k] = b`   sign case: whether the integer decoded from the bytes at offset k (counted from the first read of the
+                    path, i.e. from the start of the entry the representative iteration handles) is zero."""
+
+    def __init__(self, value=None, zero=None, eof=()):
+        self.value = dict(value or {})
         self.zero = dict(zero or {})
-        self.reads = set()  # indices of the reads that cover an offset the assumptions talk about
+        self.eof = frozenset(eof)
+        self.reads = set()  # indices of the reads an assumption talks about
 
     def constrained(self, deps) -> bool:
         return any(d in ("lost", "unbound") or (isinstance(d, tuple) and d[0] == "rd" and d[1] in self.reads) for d in deps)
@@ -359,17 +483,18 @@ class _Ev:
     MAX_STEPS = 60000
     MAX_DEPTH = 5
 
-    def __init__(self, ctx, oracle=None):
+    def __init__(self, ctx, assume=None):
         self.ctx = ctx
-        self.oracle = oracle or _Oracle()
+        self.assume = assume or _Assume()
         self.nforks = 0
         self.nsteps = 0
         self.lambdas = {}
         self.intercept = False
+        self.unknown_roots = frozenset()  # lineages of the lists that the representative loop modifies (second pass of `_run`)
 
     # ------------------------------------------------------------------------------------------------ entry point
     def run(self, f, args=None):
-        """Execute package function f on symbolic parameters (or the given values): [(state, signal)] per path."""
+        """Walk the paths of package function f with symbolic parameters (or the given abstract values): [(state, signal)] per path."""
         st = _St()
         env = {}
         for p in params(f.node):
@@ -432,13 +557,20 @@ class _Ev:
         t = self.truth(st, v)
         if t is not None:
             return t
+        # the path condition: a term this path has already decided keeps its truth value
+        flip, core = False, v
+        while isinstance(core, _T) and core.op == "not":
+            core, flip = core.args[0], not flip
+        memo = _stable(core)
+        if memo and core in st.decided:
+            return st.decided[core] != flip
         if st.script:
             d = st.script.pop(0)
             # normalise the record: strip negations
-            pol, core = d, v
-            while isinstance(core, _T) and core.op == "not":
-                core, pol = core.args[0], not pol
+            pol = (not d) if flip else d
             st.forks.append((node, core, pol, d))
+            if memo:
+                st.decided[core] = pol
             # what the decision says about a decoded integer: later tests of the same value agree with it
             subj, zero = core, not pol
             if isinstance(subj, _T) and subj.op == "eq" and any(isinstance(x, int) and not isinstance(x, bool) and x == 0 for x in subj.args):
@@ -449,7 +581,7 @@ class _Ev:
                 subj = subj.args[0].n
             if isinstance(subj, _T) and subj.op == "dec":
                 st.facts[subj] = zero
-            if self.oracle.constrained(_deps(core)):
+            if self.assume.constrained(_deps(core)):
                 st.imprecise.append(f"undecided test {src(node)[:60]}")
             return d
         raise _Fork(v, node)
@@ -519,11 +651,50 @@ class _Ev:
 
     def _enter_loop(self, s, st):
         if st.depth == 0 and st.in_loop is None:
+            # The body is analysed ONCE, for an arbitrary iteration: what the loop carries around is not known.
+            #  - lists that exist now: only the items added from here on are compared (`snap`).  A list that some path of
+            #    the run modifies AND some path inspects (length, item by position, absence of a value, enumeration)
+            #    has content the analysis does not know: `_run` repeats the analysis with those inspections answered
+            #    symbolically (`unknown_roots`).  A list nobody modifies is a loop-invariant table;
+            #  - sets, dicts: must not be modified in the loop (`guard_mut`), so they are loop-invariant tables;
+            #  - scalars bound now and re-bound in the loop: unknown - except a local that holds a read of the stream
+            #    (read-ahead loops): it stands for the read made at the end of the previous iteration, and the back
+            #    edge checks that it is re-bound to a read of the same length (`_loop_results`).
             st.in_loop = s
             st.snap = {}
             for o in st.heap.values():
                 if isinstance(o, _HList):
                     st.snap[o.root] = max(st.snap.get(o.root, 0), len(o.items))
+            st.carried = frozenset(st.heap)
+            fr = st.frames[-1]
+            for name in sorted({n.id for n in ast.walk(s) if isinstance(n, ast.Name) and isinstance(n.ctx, ast.Store)}):
+                v = fr.env.get(name)
+                if name not in fr.env or isinstance(v, (_Ref, _Fn, _EnT)):
+                    continue
+                if isinstance(v, _Rd):
+                    st.kept[name] = v.n
+                elif not isinstance(v, bytes):
+                    fr.env[name] = _Unk(frozenset({("carried", name)}), f"{name} is carried around the loop")
+
+    def carried_list(self, st, o):
+        return st is not None and st.in_loop is not None and isinstance(o, _HList) and o.root in (st.snap or {})
+
+    def note_query(self, st, o):
+        """The known items of a list are about to be inspected (length, position, absence, enumeration).  True: the
+        list is one the loop modifies (`unknown_roots`, found by the first pass of `_run`) - what it holds from
+        earlier iterations is not known, the caller must answer symbolically."""
+        if self.carried_list(st, o):
+            st.queried.add(o.root)
+            return o.root in self.unknown_roots
+        return False
+
+    def note_mut(self, st, o):
+        if self.carried_list(st, o):
+            st.mutated.add(o.root)
+
+    def guard_mut(self, st, oid):
+        if st.in_loop is not None and st.depth == 0 and oid in st.carried:
+            raise _Stop("a set / dict that is carried around the loop is modified in it")
 
     def _loop_results(self, s, res):
         out = []
@@ -533,6 +704,11 @@ class _Ev:
                     st1.events.append(("loop-exit", s))
                 out.append((st1, None))
             elif sig is None or sig == "continue":
+                if st1.in_loop is s and st1.depth == 0:
+                    for name, n in st1.kept.items():
+                        v = st1.frames[-1].env.get(name)
+                        if not (isinstance(v, _Rd) and v.n == n):
+                            st1.imprecise.append(f"{name} is not re-bound to a read of the same length at the end of the iteration")
                 out.append((st1, ("next", s)))
             else:
                 out.append((st1, sig))
@@ -605,6 +781,8 @@ class _Ev:
         if isinstance(v, _Ref):
             o = st.heap.get(v.oid)
             if isinstance(o, _HList) and not o.opaque:
+                if self.note_query(st, o):
+                    return None
                 return list(o.items)
             if isinstance(o, _HSet):
                 return sorted(o.items, key=repr)
@@ -635,6 +813,7 @@ class _Ev:
             key = self.ev(t.slice, st) if not isinstance(t.slice, ast.Slice) else None
             o = st.heap.get(base.oid) if isinstance(base, _Ref) else None
             if isinstance(o, _HDict) and key is not None and self.hashable_known(key):
+                self.guard_mut(st, base.oid)
                 for p in o.pairs:
                     if self.key_eq(p[0], key) is True:
                         p[1] = v
@@ -642,6 +821,7 @@ class _Ev:
                 o.pairs.append([key, v])
                 return
             if isinstance(o, _HList):
+                self.note_mut(st, o)
                 o.opaque = True
                 st.events.append(("reorder", o.root, "item assignment"))
                 return
@@ -661,9 +841,11 @@ class _Ev:
             fs = self.as_set(val, st)
             if fs is None:
                 raise _Stop("set difference with a set that is not known")
+            self.guard_mut(st, cur.oid)
             self.sym_sub(o, fs, st)
             return
         if isinstance(o, _HSet) and isinstance(s.op, (ast.Sub, ast.BitOr, ast.BitAnd)):
+            self.guard_mut(st, cur.oid)
             fs = self.as_set(val, st)
             if fs is None:
                 raise _Stop("set update with a set that is not known")
@@ -759,8 +941,8 @@ class _Ev:
             srcv, lo = v.args[0], 0
             if isinstance(srcv, _T) and srcv.op == "slice" and len(srcv.args) == 3:
                 srcv, lo = srcv.args[0], srcv.args[1]
-            if isinstance(srcv, _Rd) and srcv.pos is not None and (srcv.pos + lo) in self.oracle.zero:
-                return not self.oracle.zero[srcv.pos + lo]
+            if isinstance(srcv, _Rd) and srcv.pos is not None and (srcv.pos + lo) in self.assume.zero:
+                return not self.assume.zero[srcv.pos + lo]
         return None
 
     def truth(self, st, v):
@@ -821,6 +1003,9 @@ class _Ev:
                 return a == b and hash(a) == hash(b)
             except TypeError:
                 return None
+        for x, y in ((a, b), (b, a)):
+            if isinstance(x, _Rd) and isinstance(y, bytes):
+                return self.rd_eq_bytes(None, x, y)  # equal bytes objects hash alike
         return True if a == b else None
 
     def hashable_known(self, k):
@@ -861,13 +1046,7 @@ class _Ev:
                     return False
                 return None
             if isinstance(y, bytes) and isinstance(x, _Rd):
-                if _concrete(x.n):
-                    if x.n != len(y):
-                        return False
-                    return None
-                if len(y) == 0:
-                    return _not3(self.nonzero(x.n, st))
-                return None
+                return self.rd_eq_bytes(st, x, y)
             if y is None and isinstance(x, (_Rd, _Ref, _Fn, _EnT)):
                 return False
             if y is None and isinstance(x, _T) and x.op in ("dec", "fstr", "len", "slice"):
@@ -875,6 +1054,8 @@ class _Ev:
         if isinstance(a, _Ref) and isinstance(b, _Ref):
             oa, ob = st.heap.get(a.oid), st.heap.get(b.oid)
             if isinstance(oa, _HList) and isinstance(ob, _HList) and not oa.opaque and not ob.opaque:
+                if self.note_query(st, oa) | self.note_query(st, ob):
+                    return None
                 if len(oa.items) != len(ob.items):
                     return False
                 return _and3(self.eq3(st, x, y) for x, y in zip(oa.items, ob.items))
@@ -910,6 +1091,8 @@ class _Ev:
             o = st.heap.get(c.oid)
             if isinstance(o, _HList) and not o.opaque:
                 r = _or3(self.eq3(st, x, e) for e in o.items)
+                if r is not True and self.note_query(st, o):
+                    r = None  # it may be in the part of the list that is not known
                 return r if r is not None else _T("in", (x, c))
             if isinstance(o, _HSet):
                 r = _or3(self.key_eq(x, e) for e in o.items)
@@ -971,6 +1154,7 @@ class _Ev:
         return _T("cmp", (">=", big, small))
 
     def list_extend(self, o, val, st):
+        self.note_mut(st, o)
         seq = None
         if isinstance(val, _Ref) and isinstance(st.heap.get(val.oid), _HSym):
             hs = st.heap[val.oid]
@@ -1310,10 +1494,14 @@ class _Ev:
         if isinstance(base, _Ref):
             o = st.heap.get(base.oid)
             if isinstance(o, _HList) and not o.opaque and all(x is None or isinstance(x, int) for x in (lo, hi, step)):
+                if not (lo in (None, 0) and hi is None and step is None) and self.note_query(st, o):
+                    return _T("slice", (base, lo, hi, step))
                 return st.alloc(node, _HList(o.items[lo:hi:step], o.root if (lo in (None, 0) and hi is None and step is None) else None), "list")
         return _T("slice", (base, lo, hi, step))
 
     def getitem(self, base, key, st, node):
+        if isinstance(base, _Rd) and base.n == 1 and key in (0, -1) and not isinstance(key, bool):
+            return self.decode(base, "big", False, st)  # lemma I0: for a 1-byte string b, b[0] is its unsigned value
         if isinstance(base, (tuple, str, bytes)) and isinstance(key, int) and not isinstance(key, bool):
             try:
                 return base[key]
@@ -1327,6 +1515,8 @@ class _Ev:
         if isinstance(base, _Ref):
             o = st.heap.get(base.oid)
             if isinstance(o, _HList) and not o.opaque and isinstance(key, int):
+                if not (key < 0 and -key <= len(o.items) - (st.snap or {}).get(o.root, 0)) and self.note_query(st, o):
+                    return _T("getitem", (base, key))  # only the items added in this iteration have a known position (from the end)
                 try:
                     return o.items[key]
                 except IndexError:
@@ -1485,6 +1675,7 @@ class _Ev:
             if isinstance(v, _Ref):
                 o = st.heap.get(v.oid)
                 if isinstance(o, _HList):
+                    self.note_mut(st, o)
                     o.opaque = True
                     st.events.append(("escape", o.root))
                 elif isinstance(o, _HStream):
@@ -1629,6 +1820,40 @@ class _Ev:
             raise _Raise(sig[1])
         raise _Stop("nested function ends abnormally")
 
+    def assumed_value(self, rd, lo, width, byteorder, signed):
+        """Constant propagation of the run's assumption `value[i] = V` ("the unsigned big-endian integer over the whole
+        of read #i is V") into a decode of that read: V when the decode is that very integer, else None (the decode
+        stays a symbolic term).  Lemmas used, besides the identity for (whole read, 'big', unsigned):
+          D1  a 1-byte string decodes to the same integer in both byte orders (there is nothing to reorder);
+          D2  the signed and the unsigned decoding of w bytes agree when the unsigned value is < 2**(8w-1) (the sign
+              bit is clear)."""
+        v = self.assume.value.get(rd.idx)
+        if v is None or lo != 0 or not isinstance(width, int) or isinstance(width, bool) or width != rd.n or width <= 0:
+            return None
+        if not (0 <= v < 1 << (8 * width)):
+            return None
+        if byteorder != "big" and width != 1:  # D1
+            return None
+        if signed and v >= 1 << (8 * width - 1):  # D2
+            return None
+        return v
+
+    def rd_eq_bytes(self, st, x, y):
+        """three-valued `x == y` for a read x and a bytes constant y of the analysed code.  Lemmas:
+          B1  byte strings of different lengths differ (reads are complete: len(x) is the requested length);
+          B2  the fixed-width big-endian unsigned encoding is injective: a whole w-byte read whose big-endian value is
+              assumed to be V equals a w-byte constant iff the constant's big-endian value (constant folding) is V."""
+        if _concrete(x.n):
+            if x.n != len(y):
+                return False  # B1
+            v = self.assume.value.get(x.idx)
+            if v is not None:
+                return int.from_bytes(y, "big") == v  # B2
+            return None
+        if len(y) == 0:
+            return _not3(self.nonzero(x.n, st))
+        return None
+
     def decode(self, data, byteorder, signed, st, size=None):
         """int.from_bytes(data[:size], byteorder, signed=signed)"""
         if size is not None:
@@ -1650,6 +1875,9 @@ class _Ev:
             if width is None:
                 width = base.n
             st.events.append(("dec", st.site, base.idx, width, byteorder, bool(signed), lo == 0 and width == base.n))
+            known = self.assumed_value(base, lo, width, byteorder, bool(signed))
+            if known is not None:
+                return known
             return _T("dec", (data, byteorder, bool(signed)))
         return _T("call", ("int.from_bytes", data, byteorder, signed))
 
@@ -1703,6 +1931,8 @@ class _Ev:
                 return {"set": lambda: st.alloc(node, _HSet(), "set"), "frozenset": lambda: frozenset(), "list": lambda: st.alloc(node, _HList(), "list"),
                         "tuple": lambda: ()}.get(name, lambda: _Unk(_LOST, name))()
             o = st.heap.get(a0.oid) if isinstance(a0, _Ref) else None
+            if name == "list" and len(args) == 1 and isinstance(o, _HList) and not o.opaque:
+                return st.alloc(node, _HList(o.items, o.root), "list")  # a copy: same lineage (not an inspection)
             if isinstance(o, _HSym):
                 # (the order in which a set is listed is not part of what the rules compare)
                 new = o.copy()
@@ -1778,6 +2008,8 @@ class _Ev:
                     raise _Raise("ValueError")
             if name == "int" and len(vals) == 1 and isinstance(vals[0], _T) and vals[0].op == "dec":
                 return vals[0]
+            if name == "ord" and len(vals) == 1 and isinstance(vals[0], _Rd) and vals[0].n == 1:
+                return self.decode(vals[0], "big", False, st)  # lemma I0
             return _T("call", (name,) + tuple(vals))
         if name == "print":
             return None
@@ -1834,6 +2066,8 @@ class _Ev:
         if isinstance(v, _Ref):
             o = st.heap.get(v.oid)
             if isinstance(o, _HList) and not o.opaque and not any(isinstance(x, _T) and x.op in ("*", "rest") for x in o.items):
+                if self.note_query(st, o):
+                    return _T("len", (_T("list", (o.root,)),))
                 return len(o.items)
             if isinstance(o, _HSet):
                 return len(o.items)
@@ -1851,23 +2085,23 @@ class _Ev:
                     if isinstance(n, _En):
                         n = n.value
                     idx = len(st.reads)
-                    content = self.oracle.contents.get(idx)
                     pos = o.pos
-                    if content is not None:
-                        if isinstance(n, int):
-                            content = content[:n] if n >= 0 else content
-                        st.reads.append((idx, n, content, o.src))
-                        o.pos = pos + len(content) if pos is not None else None
-                        return content
+                    if idx in self.assume.eof:
+                        # the 'stream exhausted' case: the value is the constant b"" (lemma E0), the cursor stays
+                        st.reads.append((idx, n, b"", o.src))
+                        return b""
+                    # every other read is symbolic and complete (well-formed encoding): n bytes that are not known
                     st.reads.append((idx, n, None, o.src))
                     o.pos = pos + n if (pos is not None and isinstance(n, int) and not isinstance(n, bool) and n >= 0) else None
-                    if pos is not None and isinstance(n, int) and any(pos <= k < pos + n for k in self.oracle.zero):
-                        self.oracle.reads.add(idx)
+                    if idx in self.assume.value or (pos is not None and isinstance(n, int) and any(pos <= k < pos + n for k in self.assume.zero)):
+                        self.assume.reads.add(idx)
                     return _Rd(idx, n, pos)
                 if attr == "tell":
                     return _T("tell", (o.src, len(st.reads)))
                 raise _Stop(f"stream operation {attr}({len(args)} arguments) is not modelled")
             if isinstance(o, _HList):
+                if attr in ("append", "extend", "insert", "sort", "reverse", "pop", "remove", "clear"):
+                    self.note_mut(st, o)
                 if attr == "append" and len(args) == 1:
                     o.items.append(a0)
                     st.events.append(("append", o.root, a0))
@@ -1898,6 +2132,8 @@ class _Ev:
                     return st.alloc(node, _HSet(r), "set")
                 if attr == "copy":
                     return st.alloc(node, _HSet(o.items), "set")
+                if attr in ("add", "update", "difference_update", "intersection_update", "discard", "remove"):
+                    self.guard_mut(st, recv.oid)
                 if attr == "add" and len(args) == 1 and self.hashable_known(a0):
                     o.items.add(a0)
                     return None
@@ -1921,6 +2157,7 @@ class _Ev:
                     self.sym_sub(new, fs, st)
                     return st.alloc(node, new, "sym")
                 if attr == "difference_update" and fs is not None:
+                    self.guard_mut(st, recv.oid)
                     self.sym_sub(o, fs, st)
                     return None
                 if attr == "copy":
@@ -1945,6 +2182,7 @@ class _Ev:
                 if attr == "copy":
                     return st.alloc(node, _HDict(o.pairs), "dict")
                 if attr == "update" and len(args) <= 1:
+                    self.guard_mut(st, recv.oid)
                     other = st.heap.get(a0.oid) if isinstance(a0, _Ref) else None
                     new = [list(x) for x in other.pairs] if isinstance(other, _HDict) else ([] if not args else None)
                     if new is not None and all(self.hashable_known(k) for k, _v in new):
@@ -2080,11 +2318,23 @@ def _show(d, depth=0):
     return "<?>"
 
 
-def _run(ctx, f, oracle=None, args=None):
+def _run(ctx, f, assume=None, args=None):
     """([paths], None) or ([], reason the evaluation stopped)"""
-    ev = _Ev(ctx, oracle)
+    ev = _Ev(ctx, assume)
     try:
-        return [_Path(st, sig) for st, sig in ev.run(f, args)], None
+        res = ev.run(f, args)
+        # A list carried around the loop that some path modifies and some path inspects: what it holds from earlier
+        # iterations is not known.  Second pass with those lists' inspections answered symbolically.
+        mutated = set().union(*(st.mutated for st, _sig in res)) if res else set()
+        if any(st.queried & mutated for st, _sig in res):
+            ev = _Ev(ctx, assume)
+            ev.unknown_roots = frozenset(mutated)
+            res = ev.run(f, args)
+            more = set().union(*(st.mutated for st, _sig in res)) if res else set()
+            for st, _sig in res:
+                if st.queried & (more - mutated):
+                    st.imprecise.append("a list that the loop modifies is inspected (its content from earlier iterations is not known)")
+        return [_Path(st, sig) for st, sig in res], None
     except _Stop as e:
         return [], str(e)
     except RecursionError:
@@ -2111,20 +2361,20 @@ class _Analysis:
             ctx._c03_analysis = a
         return a
 
-    def run(self, fq, label, oracle=None):
+    def run(self, fq, label, assume=None):
         key = (fq, label)
         if key not in self.cache:
             f = self.ctx.repo.func(fq)
-            paths, stop = _run(self.ctx, f, oracle)
+            paths, stop = _run(self.ctx, f, assume)
             self.cache[key] = (paths, stop)
             self.all_runs.setdefault(fq, []).append((label, paths, stop))
         return self.cache[key]
 
     def root(self, fq):
-        """lineage of the list the parser returns (found on the input that ends at once), or None"""
+        """lineage of the list the parser returns (found in the case 'the stream is exhausted at the first read'), or None"""
         key = (fq, "<root>")
         if key not in self.cache:
-            paths, stop = _run(self.ctx, self.ctx.repo.func(fq), _Oracle({0: b""}))
+            paths, stop = _run(self.ctx, self.ctx.repo.func(fq), _Assume(eof={0}))
             roots = set()
             for p in paths:
                 v = p.value
@@ -2239,8 +2489,9 @@ _GA = "beacon.parse_gargle"
 _PI = "beacon.parse_process_injection_transform_steps"
 
 
-def _op(v, n=4):
-    return int(v).to_bytes(n, "big")
+# reference table (from the property statement / the Malleable C2 wire format): what the selector that follows opcode
+# BUILD selects.  Its keys are the finite vocabulary the BUILD runs are specialised over.
+_BUILD_SELECTORS = {0: "<the caller's build target>", 1: "output"}
 
 
 def _transform_classes(ctx):
@@ -2252,7 +2503,7 @@ def _transform_classes(ctx):
     root = an.root(_TB)
     out = {}
     for name, val in an.enum("TransformStep").members:
-        paths, stop = an.run(_TB, f"opcode {name}", _Oracle({0: _op(val)}))
+        paths, stop = an.run(_TB, f"opcode {name}", _Assume(value={0: val}))
         nm = _d(name)
         tests = [
             ("noarg", _expect([("int", 4)], [("tuple", nm, ("bool", True))])),
@@ -2327,8 +2578,8 @@ def r2(ctx):
     bval = tables.TRANSFORM_STEPS["BUILD"]
     sel = {}
     status_all, details = "ok", []
-    for k in (0, 1):
-        paths, stop = an.run(_TB, f"opcode BUILD selector {k}", _Oracle({0: _op(bval), 1: _op(k)}))
+    for k in _BUILD_SELECTORS:
+        paths, stop = an.run(_TB, f"opcode BUILD selector {k}", _Assume(value={0: bval, 1: k}))
         vals = set()
 
         def want(reads, items, p, vals=vals):
@@ -2347,7 +2598,7 @@ def r2(ctx):
         v0 = next(iter(sel[0])) if len(sel[0]) == 1 else None
         if v0 is not None and v0[0] == "param":
             bparam = v0[1]
-        good = bparam is not None and bparam != params(f.node)[0] and sel[1] == {("str", "output")}
+        good = bparam is not None and bparam != params(f.node)[0] and sel[1] == {("str", _BUILD_SELECTORS[1])}
         ctx.ob("R2", "TABLE", f, "BUILD_MAP", good, f"BUILD selector 0 emits {[_show(x) for x in sel[0]]}, selector 1 emits {[_show(x) for x in sel[1]]}; required the caller's build target and 'output'", f.node)
     else:
         _ob3(ctx, "R2", "TABLE", f, "BUILD_MAP", status_all, "", "; ".join(details), f.node)
@@ -2537,7 +2788,7 @@ def _recover_outcomes(ctx):
     root = an.root(_RB)
     out = {}
     for name, val in an.enum("TransformStep").members:
-        paths, stop = an.run(_RB, f"opcode {name}", _Oracle({0: _op(val)}))
+        paths, stop = an.run(_RB, f"opcode {name}", _Assume(value={0: val}))
         lit = _d(name.lower())
         if tables.RECOVER_STEPS.get(name):
             want = _expect([("int", 4), ("int", 4)], [("tuple", lit, _be32(1))])
@@ -2586,7 +2837,7 @@ def _execute_outcomes(ctx):
     plain = lambda reads, items, p: None if (reads == [("int", 1)] and len(items) == 1) else "not a plain executor"  # noqa: E731
     args = lambda reads, items, p: None if (reads == [("int", 1), ("int", 2), ("int", 4), _be32(2), ("int", 4), _be32(4)] and len(items) == 1) else "no module!function arguments"  # noqa: E731
     for name, val in an.enum("InjectExecutor").members:
-        paths, stop = an.run(_XL, f"executor {name}", _Oracle({0: bytes([val & 0xFF])}))
+        paths, stop = an.run(_XL, f"executor {name}", _Assume(value={0: val}))
         got = None
         for cls, want in (("plain", plain), ("args", args)):
             status, detail = _verdict(paths, stop, root, want, opcode_len=1)
@@ -2616,7 +2867,7 @@ _GARGLE_CASES = (("entry start!=0,end!=0", {0: False, 4: False}), ("entry start!
 
 def _gargle_outcomes(ctx):
     an = _Analysis.of(ctx)
-    return [(label,) + an.run(_GA, label, _Oracle(zero=zero)) for label, zero in _GARGLE_CASES]
+    return [(label,) + an.run(_GA, label, _Assume(zero=zero)) for label, zero in _GARGLE_CASES]
 
 
 def _leaves(d, out):
